@@ -172,8 +172,10 @@ func c12History(c *run.Ctx, id string, srcs []string, i int) run.Outcome {
 		s0 := c12Sections(m)
 		b.f(m)
 		if irstrict.Hash(m) != d0 {
-			changed := c12ChangedSections(s0, c12Sections(m))
-			o := c12Viol(c, id, "module-mutated:"+b.name, fmt.Sprintf("%s changed the module it was given (sections: %s)", b.name, changed), src, cov)
+			s1 := c12Sections(m)
+			changed := c12ChangedSections(s0, s1)
+			o := c12Viol(c, id, "module-mutated:"+b.name, fmt.Sprintf("%s changed the module it was given (sections: %s) [nodes: %s]", b.name, changed, c12ChangedWhat(s0, s1)), src, cov)
+			cov["mutated-nodes:"+b.name+":"+c12ChangedWhat(s0, s1)]++
 			if c.KnownMatch(o.Class, o.Reason) {
 				cov["known-finding-instances"]++
 				continue
@@ -414,6 +416,50 @@ func c12Sections(m *ir.Module) map[string]string {
 		"Functions":         irstrict.Dump(&ir.Module{Functions: m.Functions}, false),
 		"EntryPoints":       irstrict.Dump(&ir.Module{EntryPoints: m.EntryPoints}, false),
 	}
+}
+
+// c12ChangedWhat names the IR node kinds in which the Functions / EntryPoints dumps differ: for each of the two
+// sections the enclosing statement / expression / type-resolution kind of the first difference scanning from the
+// front and of the first difference scanning from the back (a shifted handle and a replaced node differ in both).
+func c12ChangedWhat(a, b map[string]string) string {
+	seen := map[string]bool{}
+	kindAt := func(s string, i int) string {
+		best, name := -1, "other"
+		for _, mk := range []string{"(ir.Stmt", "(ir.Expr", "(ir.Literal)", "ir.TypeResolution{", "ir.LocalVariable{", "ir.FunctionArgument{", "NamedExpressions:"} {
+			if j := strings.LastIndex(s[:min(i+1, len(s))], mk); j > best {
+				best = j
+				e := j + len(mk)
+				for e < len(s) && (s[e] >= 'a' && s[e] <= 'z' || s[e] >= 'A' && s[e] <= 'Z') {
+					e++
+				}
+				name = strings.Trim(s[j:e], "(){:.")
+				name = strings.TrimPrefix(name, "ir.")
+			}
+		}
+		return name
+	}
+	for _, k := range []string{"Functions", "EntryPoints"} {
+		x, y := a[k], b[k]
+		if x == y {
+			continue
+		}
+		i := 0
+		for i < len(x) && i < len(y) && x[i] == y[i] {
+			i++
+		}
+		seen[kindAt(x, i)] = true
+		j := 0
+		for j < len(x)-i && j < len(y)-i && x[len(x)-1-j] == y[len(y)-1-j] {
+			j++
+		}
+		seen[kindAt(x, len(x)-1-j)] = true
+	}
+	var out []string
+	for k := range seen {
+		out = append(out, k)
+	}
+	sort.Strings(out)
+	return strings.Join(out, ",")
 }
 
 func c12ChangedSections(a, b map[string]string) string {
